@@ -118,6 +118,10 @@ fn validate_r1(rep: &mut Report, results: &[(SchedLeg, Value)]) {
             let b: BTreeSet<&String> = v2["outcomes"].as_object().unwrap().keys().collect();
             if v["capped"].as_bool().unwrap() || v2["capped"].as_bool().unwrap() {
                 rep.agg.notes.push(format!("R1 validation on {} inconclusive (cap hit)", leg.name));
+            } else if a != b && (!rep.agg.classes.is_empty() || !b.is_subset(&a) || a.iter().chain(b.iter()).any(|k| k.contains("identical-schedule"))) {
+                // violations already on record, an outcome seen only under the reduction, or a subject that behaves
+                // differently under identical schedules: the comparison says nothing about R1
+                rep.agg.notes.push(format!("R1 validation on {} inconclusive (outcomes vary independently of the schedule): {:?} vs {:?}", leg.name, a, b));
             } else if a != b {
                 machinery(format!("reduction R1 changes the outcome set on {}: {:?} vs {:?}", leg.name, a, b));
             } else {
@@ -386,6 +390,10 @@ pub fn cli_roundtrip(rt: &tokio::runtime::Runtime, dir: &Path, case: &Case, agg:
         agg.viol(&class, || detail(d));
         return;
     }
+    if judge == Judge::Format {
+        // what the real reader reports back about this archive == what the independent decoder sees
+        accessor_check(&bytes, agg, &|w: &str, extra: Value| detail(json!({"what": w, "extra": extra})));
+    }
     agg.distinct("archives", fnv(&bytes));
     if judge == Judge::Format {
         return;
@@ -458,6 +466,8 @@ pub fn lib_roundtrip(rt: &tokio::runtime::Runtime, case: &Case, agg: &mut Agg, j
         Ok(Ok(bytes)) => {
             if let Some((class, d)) = judge_archive(&bytes, &case.source, &case.cfg, &case.comp, case.hash_len, &[], judge) {
                 agg.viol(&class, || detail(d));
+            } else if judge == Judge::Format {
+                accessor_check(&bytes, agg, &|w: &str, extra: Value| detail(json!({"what": w, "extra": extra})));
             }
             agg.distinct("archives", fnv(&bytes));
             // raw/compressed corner: a chunk whose compressed size equals its source size
